@@ -121,10 +121,11 @@ PLANS["C01"] = dict(
 )
 
 # ------------------------------------------------------------------ C03
-def c03_consts(tier, seed):
+def c03_consts(tier, seed, blob=False):
+    b = ["BlobOnly = TRUE" if blob else "BlobOnly = FALSE"]
     if tier == "thorough":
-        return ['Contents = {"missing", "unrelated", "root", "inter", "leaf"}', "MaxList = 3", 'Others = {"", "W2", "O1"}']
-    return ['Contents = {"missing", "unrelated", "root"}', "MaxList = 3", 'Others = {"", "W2"}']
+        return ['Contents = {"missing", "unrelated", "root", "inter", "leaf"}', "MaxList = 3", 'Others = {"", "W2", "O1"}'] + b
+    return ['Contents = {"missing", "unrelated", "root"}', "MaxList = 3", 'Others = {"", "W2"}'] + b
 
 PLANS["C03"] = dict(
     level_text="TLC checks the store-loading loop (type filter, de-duplication, error propagation) against the declarative statement for every "
@@ -143,6 +144,14 @@ PLANS["C03"] = dict(
         name="placements",
         gen=dict(module="MC_Verifier_C03",
                  cfg=lambda tier, seed: mc_cfg(["Inv_C03", "Inv_C03_Frame", "Inv_Exact", "Inv_Emit"], consts=c03_consts(tier, seed)),
+                 select=take_all),
+        drive=dict(driver="verifier"),
+        validate=dict(module="Trace_Verifier", cfg=trace_cfg(["verdict", "outcome", "authenticity", "results", "actions"])),
+    ), dict(
+        # blob verification: under a name no statement has, nothing is trusted although a global statement lists the stores
+        name="placements-blob",
+        gen=dict(module="MC_Verifier_C03",
+                 cfg=lambda tier, seed: mc_cfg(["Inv_C03", "Inv_Exact", "Inv_Emit"], consts=c03_consts(tier, seed, blob=True)),
                  select=take_all),
         drive=dict(driver="verifier"),
         validate=dict(module="Trace_Verifier", cfg=trace_cfg(["verdict", "outcome", "authenticity", "results", "actions"])),
